@@ -75,6 +75,19 @@ def _budget_left(ctx):
     return b is None or ctx.scratch.get("full_used", 0) < b
 
 
+def _forced_full(ctx, full):
+    """The fork budget is used up: is the value nevertheless forced to fill its column by what this path already
+    assumed (the same number written a second time, a number read back from a full column)?  Then the column is full -
+    assuming otherwise would make the path condition unsatisfiable and every later obligation vacuous."""
+    if isinstance(full, (builtins.bool, np.bool_)):
+        return builtins.bool(full)
+    t = getattr(full, "t", None)
+    if t is None:
+        return False
+    import z3
+    return ctx._check(z3.Not(t)) == "unsat"
+
+
 def format_sym(x: Sym, spec: str) -> str:
     """Model of ``format(x, spec)`` for a symbolic number."""
     ctx = current()
@@ -107,7 +120,15 @@ def format_sym(x: Sym, spec: str) -> str:
             # characters needed: sign + integer digits + tail
             room_full = width - tail            # sign + integer digits when the column is full
             signslot = 1 if sign in (" ", "+") else 0
-            if policy == "fit" or room_full < 2 or not _budget_left(ctx):
+            forced = False
+            if policy != "fit" and room_full >= 2 and not _budget_left(ctx):
+                k = width - tail
+                forced = _forced_full(ctx, core.Or(core.And(x >= _pow10(k - 1), x < _pow10(k)),
+                                                   core.And(x <= -_pow10(k - 2), x > -_pow10(k - 1)) if k >= 2 else False))
+            if forced:
+                content = width
+                note = "full"
+            elif policy == "fit" or room_full < 2 or not _budget_left(ctx):
                 # assume at least one blank remains: sign+digits <= width - tail - 1
                 k = width - tail - 1
                 if k < 1:
@@ -168,7 +189,16 @@ def format_sym(x: Sym, spec: str) -> str:
         if width is None:
             content = 4
         else:
-            if policy == "fit" or not _budget_left(ctx):
+            forced = False
+            if policy != "fit" and not _budget_left(ctx):
+                k = width
+                forced = _forced_full(ctx, core.Or(core.And(x >= 10 ** (k - 1), x < 10 ** k),
+                                                   core.And(x <= -(10 ** (k - 2)), x > -(10 ** (k - 1))) if k >= 2 else False))
+            if forced:
+                content = width
+                note = "full"
+                ndigits = width
+            elif policy == "fit" or not _budget_left(ctx):
                 k = width - 1
                 ctx.assume(core.And(x < 10 ** k, x > -(10 ** (k - 1)) if k >= 2 else x >= 0))
                 content = width - 1
